@@ -116,6 +116,10 @@ def run(repo, res):
     res.rule("R24.4", "kernel tallies: the edge credited is looked up from the mutation's own node, increments are guarded by edge != NULL, the weight is the sample count iff size_biased")
     res.rule("R24.5", "no id that may be tskit.NULL (a mutation's edge, a node's individual, entries of NULL-initialised tables) is used as an array index without a dominating NULL test: numpy would silently tally it on the last row")
     nullidx.run(repo, res, "R24.5")
+    from . import edgesweep
+
+    res.rule("R24.6", "set/reset pairing of the incremental tree sweeps: every per-node table the edge-insertion loop sets is reset to NULL by the edge-removal loop, and every accumulator incremented on insertion is decremented on removal")
+    edgesweep.run(repo, res, "R24.6")
     kernel = repo.fn("rescaling", "_count_mutations")
     wrap = repo.fn("rescaling", "count_mutations")
     loc = lambda f, n=None: repo.loc(f, n)  # noqa: E731
@@ -209,7 +213,7 @@ def run(repo, res):
     res.require(okme, "R24.4", "_count_mutations records the credited edge per mutation", "mutations_edge store is not `mutations_edge[m] = e` under the NULL guard", loc(kernel))
 
 
-VARIANTS = [dict(v, rule="R24.5") for v in nullidx.VARIANTS] + [
+VARIANTS = [dict(v, rule="R24.5") for v in nullidx.VARIANTS] + [dict(v, rule="R24.6") for v in __import__("sa.rules.edgesweep", fromlist=["VARIANTS"]).VARIANTS] + [
     dict(name="assert-ne", mod="rescaling", expect="fire", rule="R24.1",
          old="        assert node_is_sample.size == ts.num_nodes", new="        assert node_is_sample.size != ts.num_nodes"),
     dict(name="default-sized-by-samples", mod="rescaling", expect="fire", rule="R24.1",
